@@ -7,7 +7,7 @@ pub mod take;
 
 use super::{DeError, Error};
 
-use integer_encoding::{VarInt, VarIntReader};
+use integer_encoding::VarInt;
 
 /// Abstracts reading from slices or any other `impl BufRead` behind the same
 /// interface
@@ -180,7 +180,40 @@ impl<R: std::io::BufRead> Read for ReaderRead<R> {
 		// more general `read_varint` method that reads byte by byte (that's slightly
 		// sub-optimal but also will trigger extremely rarely).
 		match I::decode_var(self.fill_buf().map_err(DeError::io)?) {
-			None => <Self as VarIntReader>::read_varint(self).map_err(DeError::io),
+			None => {
+				// Read byte by byte, then decode using the same function as the slice
+				// version, so that the result does not depend on how the reader is chunked
+				// (e.g. an `int` may legally be padded to more than 5 bytes)
+				let mut buf = [0u8; 10];
+				let mut len = 0;
+				while len < buf.len() {
+					let mut byte = [0u8; 1];
+					if std::io::Read::read(self, &mut byte).map_err(DeError::io)? == 0 {
+						break;
+					}
+					buf[len] = byte[0];
+					len += 1;
+					if byte[0] & 0x80 == 0 {
+						break;
+					}
+				}
+				match I::decode_var(&buf[..len]) {
+					Some((val, _)) => Ok(val),
+					None => Err(DeError::io(
+						if buf[..len].last().map_or(true, |&last| last & 0x80 != 0) && len < buf.len() {
+							std::io::Error::new(
+								std::io::ErrorKind::UnexpectedEof,
+								"Reached EOF when decoding varint",
+							)
+						} else {
+							std::io::Error::new(
+								std::io::ErrorKind::InvalidData,
+								"Unterminated or out of bounds varint",
+							)
+						},
+					)),
+				}
+			}
 			Some((val, read)) => {
 				self.consume(read);
 				Ok(val)
